@@ -160,6 +160,9 @@ def classify_death(rc, stderr):
         return "lsan:leak", "?"
     if "SIM-ERROR" in stderr:
         return "sim-error", stderr[stderr.find("SIM-ERROR"):][:200]
+    m = re.search(r"([^\s:]+\.(?:cpp|c|h)):(\d+): ([^\n]*?): Assertion `([^\n]*)' failed", stderr)
+    if m:
+        return "assert-abort", "%s:%s %s: %s" % (os.path.basename(m.group(1)), m.group(2), m.group(3).split("(")[0].split()[-1], m.group(4))
     if rc == -999:
         return "timeout", "?"
     if rc < 0:
@@ -371,7 +374,16 @@ def do_check(prop, tier, seed, extra):
             if "sample" in r and len(samples) < 6 and r.get("nontrivial"):
                 samples.append({"batch": b.get("name"), "seed": r["seed"], "case": r["sample"], "faults": r.get("faults", {})})
             if r["status"] == "violation":
-                violations.append({"batch": b, "rec": r})
+                pref = rc_.get("oracles")
+                if pref and not any(r["viol"]["oracle"].startswith(x) for x in pref):
+                    # an oracle of another property fired in a shared scenario: that property's own check decides it
+                    key = r["viol"]["oracle"]
+                    cov.setdefault("other_property_oracles", {})
+                    cov["other_property_oracles"][key] = cov["other_property_oracles"].get(key, 0) + 1
+                    if cov["other_property_oracles"][key] <= 2:
+                        log("note: oracle %s (other property) fired: %s" % (key, r["viol"]["detail"][:300]))
+                else:
+                    violations.append({"batch": b, "rec": r})
         for d in deaths:
             cls, where = classify_death(d["rc"], d["stderr"])
             violations.append({"batch": b, "death": d, "cls": cls, "where": where})
@@ -410,7 +422,7 @@ def do_check(prop, tier, seed, extra):
         if "death" in v:
             d = v["death"]
             cls, oracle = v["cls"], "worker-death"
-            text = "%s|%s|%s|%s" % (cls, v["where"], b["scenario"], json.dumps(b.get("opts", {}), sort_keys=True))
+            text = None
             detail = "%s in %s; stderr tail: %s" % (cls, v["where"], d["stderr"][-1500:])
             if cls in ("sim-error", "timeout"):
                 log("SIM-ERROR worker death without a property verdict:", detail[:2000])
@@ -421,6 +433,8 @@ def do_check(prop, tier, seed, extra):
             for kk, vv in sorted(b.get("opts", {}).items()):
                 cmd += ["--opt", "%s=%s" % (kk, vv)]
             plan = subprocess.run(cmd, stdout=subprocess.PIPE).stdout.decode()
+            cfgline = next((l for l in plan.split("\n") if l.startswith("cfg")), "")
+            text = "%s|%s|%s|%s|%s|%s" % (cls, v["where"], b["backend"], b["variant"], b["scenario"], cfgline)
             isdeath = True
         else:
             r = v["rec"]
@@ -433,10 +447,12 @@ def do_check(prop, tier, seed, extra):
         if k:
             known_hits[k["what"]] = known_hits.get(k["what"], 0) + 1
             continue
-        key = (cls, oracle, b.get("name"))
+        key = (cls, oracle)
         seen_classes[key] = seen_classes.get(key, 0) + 1
-        if seen_classes[key] > 2:
-            continue   # report at most two minimised replays per (class, oracle, batch)
+        if seen_classes[key] > 3:
+            suppressed = cov.setdefault("violations_not_minimised", {})
+            suppressed[cls + "/" + oracle] = suppressed.get(cls + "/" + oracle, 0) + 1
+            continue   # at most three minimised replays per (class, oracle)
         # gate 1: the same plan reproduces in a fresh process
         rec2, rc2, err2 = run_plan(exe, plan, b["backend"], b["variant"])
         if isdeath:
@@ -482,6 +498,8 @@ def do_check(prop, tier, seed, extra):
         "batches": cov["per_batch"],
         "judged_statistics": judged,
         "known_findings_hit": known_hits,
+        "other_property_oracles_fired": cov.get("other_property_oracles", {}),
+        "violations_not_minimised": cov.get("violations_not_minimised", {}),
         "components": {"real": ["libtfhe-<backend>.so built from /repo/src by the repo's CMake (all evaluation, key generation, serialisation code)", "libfftw3", "glibc stdio", "libstdc++ iostreams"],
                        "simulated": ["client/cloud actors", "byte store and wire (fopencookie FILE*, custom streambuf)", "scheduler", "omniscient observer arithmetic", "entropy/time watchdog"]},
         "tree_hash": th,
